@@ -15,7 +15,17 @@ import sys
 sys.path.insert(0, os.path.dirname(os.path.abspath(__file__)))
 from common import framework as fw  # noqa: E402
 from common.framework import Case, Failure, Property  # noqa: E402
-from common import env  # noqa: E402
+
+# term_image is imported while `sys.stdout` is a throw-away stream: whatever the package binds to `sys.stdout` /
+# `sys.stdout.write` at import time (module-level aliases) keeps pointing THERE, not at the stream the harness assigns
+# to `sys.stdout` right before each draw() — exactly the situation of an application that redirects stdout later
+IMPORT_TIME_STDOUT = io.StringIO()
+_real_stdout, sys.stdout = sys.stdout, IMPORT_TIME_STDOUT
+try:
+    from common import env  # noqa: E402
+    import term_image.image  # noqa: E402,F401
+finally:
+    sys.stdout = _real_stdout
 from common import tokenizer as tk  # noqa: E402
 from common.ctlgen import gen_ctl, lean_str  # noqa: E402
 
@@ -212,8 +222,11 @@ old_common.time = FakeTime
 new_mod.get_terminal_size = env.get_terminal_size
 iter_mod.get_terminal_size = env.get_terminal_size
 old_common.get_terminal_size = env.get_terminal_size
+# KittyImage.clear() writes through the import-time alias `_stdout_write = sys.stdout.write` (kitty.py); the animation's
+# `_clear_frame()` (kitty <= 0.25.0) goes through it. It is re-pointed to the current `sys.stdout` here so that the frame
+# clearing reaches the recorded stream (see docs/C07.md, "observation": with a re-bound sys.stdout the real alias sends
+# the deletes to the old stream). Nothing else is re-pointed: iterm2's alias stays what the import made it.
 old_kitty._stdout_write = lambda s: sys.stdout.write(s)
-old_iterm2._stdout_write = lambda s: sys.stdout.write(s)
 
 # ------------------------------------------------------------------------------------------
 # frames
@@ -515,6 +528,34 @@ def documented_hook(style: str) -> str:
 _MISSING = object()
 
 
+class pil_raiser:
+    """while active, the n-th call of PIL.Image.Image.{convert, resize, getdata, tobytes} counts as the (faulted)
+    render action and raises the injected exception from inside Pillow"""
+    NAMES = ("convert", "resize", "getdata", "tobytes")
+
+    def __init__(self, nth):
+        self.nth, self.calls, self.saved = nth, 0, {}
+
+    def __enter__(self):
+        for name in self.NAMES:
+            orig = getattr(Image.Image, name)
+            self.saved[name] = orig
+
+            def patched(img, *a, _orig=orig, **k):
+                self.calls += 1
+                if self.calls == self.nth and INJ.fired is None and INJ.tick("render") is not None:
+                    raise INJ.exc()
+                return _orig(img, *a, **k)
+
+            setattr(Image.Image, name, patched)
+        return self
+
+    def __exit__(self, *exc):
+        for name, orig in self.saved.items():
+            setattr(Image.Image, name, orig)
+        return False
+
+
 def fresh_app_subclass(d):
     """an application subclass of KittyImage in a FRESH support state: the base class has never been probed; the
     terminal's identity reaches the subclass through `is_supported()` called on the subclass (fake query layer).
@@ -570,7 +611,13 @@ def _run_old(d, cls) -> RunResult:
     orig_render = im._render_image
 
     def render_image(img, alpha, *a, **k):
-        s = orig_render(img, alpha, *a, **k)
+        if d.get("pil_fault") and INJ.plan is not None and INJ.fired is None and INJ.n == INJ.plan["k"]:
+            # this render is the interrupted action and the exception arrives INSIDE it: from Pillow's
+            # convert / resize / getdata / tobytes, at the `pil_fault`-th such call of this render
+            with pil_raiser(d["pil_fault"]):
+                s = orig_render(img, alpha, *a, **k)
+        else:
+            s = orig_render(img, alpha, *a, **k)
         sizes.append(tuple(im.rendered_size))
         state["last"] = s
         if INJ.tick("render") is not None:
@@ -628,11 +675,13 @@ def _run_old(d, cls) -> RunResult:
     if animation:
         r.frames = list(yielded)
         if INJ.fired and INJ.fired[0] == "render":
-            r.frames.append((True, state["last"]))
+            r.frames.append((True, state["last"] or ""))  # "" when the exception arrived inside the render
         if not r.frames:  # interrupted before the first frame was rendered: the model needs a (never written) frame
             r.frames = [(True, "")]
     else:
         r.frames = [(True, state["last"])] if state["last"] is not None else []
+        if not r.frames and INJ.fired and INJ.fired[0] == "render":
+            r.frames = [(True, "")]  # interrupted inside the render: the model needs a (never written) frame
     r.finalized = 0
     r.iter_closed = int(bool(closes))
     r.seek_ok = int(im.tell() == seek0)
@@ -1217,6 +1266,38 @@ class C06(Property):
         return fails
 
 
+def stdout_aliases():
+    """AST scan of the imported package: (module-level names bound to an expression mentioning `sys.stdout`,
+    functions that use such a name) — an alias keeps pointing at the stream that was `sys.stdout` at import time"""
+    import ast
+    import pathlib
+    root = pathlib.Path(term_image.__file__).parent
+    aliases, users = [], []
+    for path in sorted(root.rglob("*.py")):
+        mod = ".".join(path.relative_to(root).with_suffix("").parts)
+        tree = ast.parse(path.read_text())
+        names = set()
+        for node in tree.body:
+            if isinstance(node, (ast.Assign, ast.AnnAssign)) and node.value is not None and "sys.stdout" in ast.unparse(node.value):
+                for t in (node.targets if isinstance(node, ast.Assign) else [node.target]):
+                    names.add(ast.unparse(t))
+        aliases += [f"{mod}.{n}" for n in sorted(names)]
+        if not names:
+            continue
+
+        def visit(node, qual):
+            for ch in ast.iter_child_nodes(node):
+                if isinstance(ch, ast.ClassDef):
+                    visit(ch, qual + [ch.name])
+                elif isinstance(ch, (ast.FunctionDef, ast.AsyncFunctionDef)):
+                    if any(isinstance(x, ast.Name) and x.id in names and isinstance(x.ctx, ast.Load) for x in ast.walk(ch)):
+                        users.append(".".join([mod] + qual + [ch.name]))
+                    visit(ch, qual + [ch.name])
+
+        visit(tree, [])
+    return aliases, sorted(users)
+
+
 def hook_arg_name(fn, callee: str) -> str:
     """the local name passed as the render-arguments argument (2nd positional) of every `self.<callee>(…)` call in `fn`
     (read from the AST of the live function); `?` if the calls disagree or there is none"""
@@ -1259,6 +1340,8 @@ def gen_c06() -> dict[str, str]:
         f"def hideCursor : String := {lean_str(ctl.HIDE_CURSOR)}",
         f"def showCursor : String := {lean_str(ctl.SHOW_CURSOR)}",
         f"def kittyAnimZ : Int := {-(1 << 31)}",
+        f"def stdoutAliases : List String := [{', '.join(lean_str(x) for x in stdout_aliases()[0])}]",
+        f"def stdoutAliasUsers : List String := [{', '.join(lean_str(x) for x in stdout_aliases()[1])}]",
         f"def hookArgsStill : String := {lean_str(hook_arg_name(Renderable.draw, '_handle_interrupted_draw_'))}",
         f"def animateArgs : String := {lean_str(hook_arg_name(Renderable.draw, '_animate_'))}",
         f"def hookArgsAnim : String := {lean_str(hook_arg_name(Renderable._animate_, '_handle_interrupted_draw_'))}",
